@@ -37,6 +37,7 @@ namespace osmium { namespace detail {
 #include <sys/wait.h>
 #include <unistd.h>
 
+#include <algorithm>
 #include <chrono>
 #include <condition_variable>
 #include <mutex>
@@ -89,6 +90,7 @@ void pause_producer() {
 
 std::vector<Obj> g_objs;         // 2 nodes, 2 ways, 2 relations
 std::string g_ref;               // bytes the compressor receives in a fault-free run
+int g_ref_writes = 0;            // Compressor::write() calls of that run
 std::string g_dir;
 
 void build(osmium::memory::Buffer& buf, const Obj& o, bool bad) {
@@ -169,7 +171,10 @@ const char* step_name(int s) {
 void body(const Cfg& c) {
     Result r = drive(c);
     const std::string tag = c.fault;
-    if (c.fault == "none") {
+    // A planned write fault that was never reached (the write thread handed the data to the compressor in fewer
+    // write() calls than the planned position) injected nothing: the run must then behave like a fault-free one.
+    const bool not_reached = c.fault == "write" && !g_ms.failed;
+    if (c.fault == "none" || not_reached) {
         if (r.threw_at != -1) vsched::fail("writer-sched/spurious-exception", std::string(step_name(r.threw_at)) + " threw: " + r.what);
         else if (g_ms.data != g_ref) vsched::fail("writer-sched/output-differs-from-reference", std::to_string(g_ms.data.size()) + " bytes reached the compressor, reference has " + std::to_string(g_ref.size()));
         else if (r.size != g_ref.size()) vsched::fail("writer-sched/close-returns-wrong-size", std::to_string(r.size) + " vs " + std::to_string(g_ref.size()));
@@ -179,7 +184,7 @@ void body(const Cfg& c) {
         if (!r.refusal.empty()) vsched::fail("writer-sched/no-refusal-after-error/" + tag, r.refusal + "first exception from " + step_name(r.threw_at));
         if (g_ms.writes_after_failure > 0) vsched::fail("writer-sched/compressor-written-after-failure/" + tag, std::to_string(g_ms.writes_after_failure) + " write() calls after the compressor had failed");
     }
-    vsched::observe(r.threw_at == -1 ? "success" : std::string("exception from ") + step_name(r.threw_at) + ": " + r.what.substr(0, 40));
+    vsched::observe(not_reached ? "fault position not reached (" + std::to_string(g_ms.writes) + " compressor writes); success" : r.threw_at == -1 ? "success" : std::string("exception from ") + step_name(r.threw_at) + ": " + r.what.substr(0, 40));
 }
 
 }  // namespace
@@ -220,6 +225,7 @@ int main(int argc, char** argv) {
                 rd.close();
             } catch (const std::exception&) { ok = false; }
         }
+        g_ref_writes = g_ms.writes;
         if (!ok || got != want) {
             printf("VIOL\twriter-sched/fault-free-reference-run-fails\treference run: %s; %zu objects decoded, %zu written\tfault=none@0,pool=1,q=20|-\n", r.threw_at == -1 ? "no exception" : r.what.c_str(), got.size(), want.size());
             fflush(stdout);
@@ -229,7 +235,9 @@ int main(int argc, char** argv) {
     for (int paced : {0, 1}) for (int pool : {1, 2}) for (int q : {2, 20}) {
         if (q == 20 && !T && !(pool == 1 && paced == 1)) continue;      // quick: the large queue only with the paced producer
         cfgs.push_back(Cfg{"none", 0, pool, q, paced});
-        for (int j = 1; j <= 3; ++j) cfgs.push_back(Cfg{"write", j, pool, q, paced});
+        // fault positions: the first three Compressor::write() calls the fault-free reference run makes (a tree that
+        // coalesces small pieces makes fewer calls; positions beyond the last call would inject nothing)
+        for (int j = 1; j <= 3 && j <= std::max(1, g_ref_writes); ++j) cfgs.push_back(Cfg{"write", j, pool, q, paced});
         cfgs.push_back(Cfg{"close", 0, pool, q, paced});
         cfgs.push_back(Cfg{"encoder", 0, pool, q, paced});
         cfgs.push_back(Cfg{"encoder", 1, pool, q, paced});
@@ -251,7 +259,12 @@ int main(int argc, char** argv) {
         if (WIFSIGNALED(status)) { printf("VIOL\tcrash/signal-%d\tthe replayed execution died by signal %d\t-\n", WTERMSIG(status), WTERMSIG(status)); fflush(stdout); }
         return 0;
     } else {
-        for (int b = 0; b <= maxb; ++b) for (auto& c : cfgs) {
+        for (int b = 0; b <= 2; ++b) for (auto& c : cfgs) {
+            // quick: two deviations only where an OS-level fault meets a full output queue (one write thread, one worker, q=2,
+            // free-running producer): "producer inside push() while the write thread fails and shuts the queue down" needs one
+            // deviation to park the write thread after its pop and one to switch inside the producer's wait entry
+            const bool deep = c.paced == 0 && c.q == 2 && c.pool == 1 && (c.fault == "write" || c.fault == "close");
+            if (b > maxb && !(b == 2 && deep)) continue;
             vsched::Options o; o.delay_bounded = true; o.min_bound = b; o.max_bound = b; o.workers = 16;
             m.run(c.name(), [&] { body(c); }, o);
         }
